@@ -98,6 +98,10 @@ EXPLANATION += (
     ' Round 11: row totals are accumulated in a widened type and the CPM formula of C07 is shared; bootstrap_iteration reaches the election as configured (R-FWD/config-as-requested).'
 )
 
+EXPLANATION += (
+    ' Round 14: the iteration count and the bootstrap factors are handed on as received along the election chain (R-FWD/handed-on-unchanged); a sample drawn without replacement never exceeds the population (R-CAP/sample-within-population).'
+)
+
 RULE_TEXT = (
     "one obligation per draw, per block, per indexed comprehension, per "
     "provenance relation, per kernel function x configuration (type and "
@@ -166,6 +170,10 @@ def check(ctx):
     check_count_denominators(ctx)
     from ..rules.forwarding import check_forwarding
     check_forwarding(ctx, {'bootstrap_iteration', 'bootstrap_factor', 'bootstrap_factor_lookup', 'n_assignments'})
+    # the genes voted on at a parent with too few markers of its own are
+    # those of its nearest ancestors first (rule of C08)
+    from .C08 import check_ancestors_nearest_first
+    check_ancestors_nearest_first(ctx)
 
 
 def _draw_ok(fi, expr, nid, depth=0):
@@ -901,8 +909,13 @@ def check_sample_within_population(ctx,
                     for k in c.keywords):
             sizes.add(c.args[1].id)
     if not sizes:
-        raise AnalysisError('tally_votes: no draw without replacement '
-                            'with a named sample size found')
+        # the draw itself is judged by R-RNG (with / without replacement,
+        # kind of draw); with no `choice(..., n, replace=False)` left
+        # there is no sample size to bound here
+        ctx.ok(rule, 'tally_votes:draw', 'package',
+               'no draw without replacement with a named sample size: '
+               'nothing to bound', nontrivial=False)
+        return 0
     for node in cfg.nodes:
         if node.kind != 'stmt' or node.id not in rd.live or not isinstance(
                 node.ast, ast.Assign):
